@@ -27,7 +27,10 @@ RULE = ('cmp cases: all ordered pairs (and, for the order laws, all triples) of 
         'from the lattices (plain and monotone) of one or two random contexts, formal (3 back-ends) or '
         'many-valued (IntervalPS/IntervalNumpyPS/SetPS/AttributePS), plus from_objects concepts; streams: '
         'one context, two different contexts, two equal contexts built separately, adler32-colliding contexts '
-        '(D18); fromobj cases: every object subset of a context with <= 6 (quick) / 8 (thorough) objects by '
+        '(D18), history (one context object before / after an in-place change through its setters, and a fresh '
+        'equal context: different content => refused, equal content => accepted; the stored hash must be the '
+        'hash of the content), mining (pattern concepts from both close_by_one paths with from_objects twins and '
+        'permuted is_extent selections: == true => equal hash, one set element, one dict key); fromobj cases: every object subset of a context with <= 6 (quick) / 8 (thorough) objects by '
         'index and by name, permuted subsets, unknown names, is_extent, is_monotone; setattr: every public '
         'field; non-trivial = a cmp case with >= 3 concepts of which two are comparable and two are not, or a '
         'fromobj case on a non-constant table')
@@ -522,6 +525,70 @@ def cmp_case(rng, tier, stream, pattern):
     return {'kind': 'cmp', 'pattern': pattern, 'stream': stream, 'ctxs': ctxs, 'sel': sel}
 
 
+def perturb(rng, c, pattern):
+    """A context content that differs from c in what hash_fixed hashes; returns (content, how)."""
+    new = dict(c)
+    r = rng.random()
+    if pattern and r < 0.7:
+        data = [list(row) for row in c['data']]
+        h, w = len(data), len(data[0])
+        fresh = mv_ctx(rng, h, w)       # cells of the right types come from a same-typed random table
+        for _ in range(rng.randint(1, 3)):
+            i, j = rng.randrange(h), rng.randrange(w)
+            t = c['ptypes'][j]
+            if t in ('IntervalPS', 'IntervalNumpyPS'):
+                a = rng.randint(-9, 9)
+                data[i][j] = ['n', a] if rng.random() < 0.5 else ['i', a, a + rng.randint(0, 3)]
+            elif t == 'SetPS':
+                data[i][j] = ['s', sorted(rng.sample(range(4), rng.randint(0, 3)))]
+            else:
+                data[i][j] = ['b', not data[i][j][1]]
+        new['data'] = data
+        return new, rng.choice(['column', 'replace'])
+    which = 'onames' if rng.random() < 0.5 else 'anames'
+    names = list(c[which])
+    if len(names) >= 2 and rng.random() < 0.5:
+        i, j = rng.sample(range(len(names)), 2)
+        names[i], names[j] = names[j], names[i]
+    else:
+        names[rng.randrange(len(names))] = rng.choice([x for x in range(60, 90)])
+    new[which] = names
+    return new, 'names'
+
+
+def history_case(rng, tier, pattern):
+    """One context object in two successive states (concepts derived before and after an in-place change
+    through the public setters) and a freshly built context equal to the second state."""
+    dim = 6
+    old = mv_ctx(rng, dim, 3) if pattern else formal_ctx(rng, dim)
+    if rng.random() < 0.2:
+        new, how = dict(old), rng.choice(['names', 'replace'] if pattern else ['names'])   # same content re-assigned
+    else:
+        new, how = perturb(rng, old, pattern)
+    twin = dict(new)
+    if not pattern:
+        twin['backend'] = rng.choice(BACKENDS)
+    seed = rng.randrange(10 ** 6)
+    objs = gen.random_subset(rng, n_objects(old))
+    sel = []
+    for k in (0, 1, 2):
+        sel += [['obj', k, objs, False], ['lat', k, False, seed + k, 2]]
+    return {'kind': 'cmp', 'pattern': pattern, 'stream': 'history-' + how, 'ctxs': [old, new, twin], 'sel': sel,
+            'mutate': how}
+
+
+def mining_case(rng, tier):
+    """Pattern concepts from both mining paths of close_by_one (the objectwise one stores extents in
+    discovery order, e.g. (0, 1, 4, 2)), each with its from_objects twin, plus a permuted is_extent one."""
+    c = mv_ctx(rng, 6, 2, interval_only=rng.random() < 0.7)
+    seed = rng.randrange(10 ** 6)
+    objs = gen.random_subset(rng, n_objects(c))
+    rng.shuffle(objs)
+    sel = [['cbo', 0, 0, seed, 3], ['cbo', 0, 1000, seed + 1, 2], ['obj', 0, objs, False, True],
+           ['obj', 0, sorted(objs), False, True]]
+    return {'kind': 'cmp', 'pattern': True, 'stream': 'mining', 'ctxs': [c], 'sel': sel}
+
+
 def fromobj_items(rng, c, exhaustive_upto):
     n = n_objects(c)
     items = []
@@ -580,10 +647,14 @@ def hash_case(rng):
 def generate(rng, tier):
     quick = tier == 'quick'
     cases = []
-    n_cmp = 280 if quick else 2400
+    n_cmp = 230 if quick else 2000
     streams = ['single'] * 5 + ['cross'] * 3 + ['equal'] + ['collide']
     for _ in range(n_cmp):
         cases.append(cmp_case(rng, tier, rng.choice(streams), pattern=rng.random() < 0.35))
+    for _ in range(70 if quick else 500):
+        cases.append(history_case(rng, tier, pattern=rng.random() < 0.6))
+    for _ in range(50 if quick else 400):
+        cases.append(mining_case(rng, tier))
     for _ in range(40 if quick else 400):
         cases.append(fromobj_case(rng, tier, pattern=False))
     for _ in range(20 if quick else 200):
